@@ -488,3 +488,113 @@ class Walk:
 
     def value_known(self, x):
         return self.init.get(x, {}).get("value") in ("S", "N")
+
+
+# ---------------------------------------------------------------- the primitives the interpreter models instead of interpreting
+def _param_ids(F, path):
+    out = []
+    for p in F.bodies[path]["thir"]["params"]:
+        pat = p.get("pat")
+        out.append(pat["id"] if pat and pat["k"] == "Bind" else None)
+    return out
+
+
+def _vars(node):
+    from ..facts import find_all
+    return [n["id"] for n, ps in find_all(node, lambda n: n["k"] == "Var")]
+
+
+def check_primitives(rep, F, rule, which):
+    """definition checks for functions the interpreter treats as primitives (their bodies are not interpreted, so their meaning
+    is pinned here): `to_right(branch, child) = child.is_bit_set(branch.prefix_len())`; `Table::index/index_mut` index the node
+    vector with the given index (bounds-checked by Vec); `Table::get_mut` compares the index with the vector length before
+    offsetting the pointer by exactly that index."""
+    from ..facts import find_all, callee_of
+    cfg = F.config
+    if "to_right" in which:
+        short = "to_right"
+        b = F.body(short)
+        if b is None:
+            rep.bad(rule, short, "missing", "to_right not found", kind="unrecognised", config=cfg)
+        else:
+            ids = _param_ids(F, F.short[short])
+            calls = find_all(b["thir"]["body"], lambda n: n["k"] == "Call" and n["fun"]["k"] == "FnRef")
+            outer = [n for n, ps in calls if n["fun"]["name"] == "is_bit_set"]
+            ok = False
+            if len(outer) == 1 and len(calls) == 2:
+                o = outer[0]
+                inner = o["args"][1]
+                ok = _vars(o["args"][0]) == [ids[1]] and inner["k"] == "Call" and inner["fun"]["k"] == "FnRef" and \
+                    inner["fun"]["name"] == "prefix_len" and _vars(inner) == [ids[0]]
+            if ok:
+                rep.ok(rule, short, "child.is_bit_set(branch.prefix_len())")
+            else:
+                rep.bad(rule, short, "definition", "to_right(branch, child) is no longer `child.is_bit_set(branch.prefix_len())`: the branch side of every "
+                        "link (and the relation oracle of the checks) is defined by exactly this bit", config=cfg)
+    for short, vec_callee, via in (("<Table as Index>::index", "<std::vec::Vec<T, A> as std::ops::Index<I>>::index", "as_ref"),
+                                   ("<Table as IndexMut>::index_mut", "<std::vec::Vec<T, A> as std::ops::IndexMut<I>>::index_mut", "as_mut")):
+        if "index" not in which:
+            break
+        b = F.body(short)
+        if b is None:
+            rep.bad(rule, short, "missing", "%s not found" % short, kind="unrecognised", config=cfg)
+            continue
+        ids = _param_ids(F, F.short[short])
+        calls = [n for n, ps in find_all(b["thir"]["body"], lambda n: n["k"] == "Call")]
+        vc = [n for n in calls if callee_of(n) == vec_callee]
+        builtin = find_all(b["thir"]["body"], lambda n: n["k"] == "Index")
+        ok = False
+        if len(vc) == 1:
+            ok = _vars(vc[0]["args"][1]) == [ids[1]] and _vars(vc[0]["args"][0]) == [ids[0]]
+        elif builtin:
+            ok = _vars(builtin[0][0]["idx"]) == [ids[1]]
+        if ok:
+            rep.ok(rule, short, "indexes the node vector with the given index")
+        else:
+            rep.bad(rule, short, "definition", "%s no longer is `self.%s()[index]` (bounds-checked element of the node vector at the given index)" % (short, via), config=cfg)
+    if "get_mut" in which:
+        gm = None
+        for f in F.lib_fns():
+            if f.get("unsafe") and f.get("impl") and F.adt_of(f["impl_self_ty"]) == TABLE and f["inputs"] and F.types[f["output"]]["t"] == "ref" \
+                    and F.types[f["output"]]["m"] and F.adt_of(f["output"]) == NODE:
+                gm = f
+        if gm is None:
+            rep.bad(rule, "Table::get_mut", "missing", "the unsafe &Table → &mut Node accessor was not found", kind="unrecognised", config=cfg)
+        else:
+            short = F.short_of[gm["path"]]
+            body = F.bodies[gm["path"]]["thir"]["body"]
+            ids = _param_ids(F, gm["path"])
+            idx = ids[1]
+            calls = [n for n, ps in find_all(body, lambda n: n["k"] == "Call")]
+            names = [n["fun"].get("name") for n in calls if n["fun"]["k"] == "FnRef"]
+            # form A: explicit bounds check + pointer offset by idx;  form B: Vec::index_mut / builtin index (bounds-checked by Vec)
+            def oob_branch(g):
+                """the branch of `if` g taken exactly when idx >= len, or None if the test is not that comparison"""
+                c = g["cond"]
+                li, ri = idx in _vars(c["l"]), idx in _vars(c["r"])
+                if li == ri:
+                    return None
+                op = c["op"] if li else {"Ge": "Le", "Le": "Ge", "Gt": "Lt", "Lt": "Gt"}[c["op"]]     # normalise to  idx <op> len
+                if op == "Ge":
+                    return g["then"]
+                if op == "Lt":
+                    return g.get("else")
+                return None
+            guards = [n for n, ps in find_all(body, lambda n: n["k"] == "If" and n["cond"]["k"] == "Binary" and n["cond"]["op"] in ("Ge", "Gt", "Lt", "Le"))
+                      if idx in _vars(n["cond"])]
+            panics = False
+            for g in guards:
+                br = oob_branch(g)
+                if br is not None and any(c["fun"].get("name") in ("panic_fmt", "panic", "panic_display") for c, _ in
+                                          find_all(br, lambda n: n["k"] == "Call" and n["fun"]["k"] == "FnRef")):
+                    panics = True
+            len_cmp = "len" in names
+            adds = [n for n in calls if n["fun"]["k"] == "FnRef" and n["fun"]["name"] in ("add", "offset")]
+            add_ok = all(_vars(a["args"][1]) == [idx] for a in adds)
+            form_a = panics and len_cmp and adds and add_ok
+            form_b = any(n in ("index_mut", "get_mut", "get_unchecked_mut") for n in names) and "get_unchecked_mut" not in names and not adds
+            if form_a or form_b:
+                rep.ok(rule, short, "bounds-checked element access at the given index", sample={"form": "explicit check + ptr.add(idx)" if form_a else "Vec indexing"})
+            else:
+                rep.bad(rule, short, "definition", "%s no longer bounds-checks the index against the vector length before handing out `&mut Node` at exactly "
+                        "that index (calls: %s)" % (short, names), config=cfg)
